@@ -203,6 +203,50 @@ def m_fopen(I, st, fr, n, this, args, an):
     return [(st, NULL), (s2, P(('file', root), ()))]
 
 
+def m_open(I, st, fr, n, this, args, an):
+    """POSIX open(path, flags[, mode]): a descriptor (or -1); the flags are remembered for a later fdopen"""
+    fdn = '$fd%d' % n['_id']          # one name per call site: states of a loop that comes by here again can merge
+    flags = args[1] if len(args) > 1 else TOP
+    s_fail = st.copy()
+    s_fail.note((nloc(n), 'open=-1'))
+    st.sym[fdn] = (3, 1 << 20)
+    st.comps[('fd', fdn)] = (args[0] if args else TOP, flags)
+    return [(s_fail, C(-1)), (st, sym(fdn))]
+
+
+def m_fdopen(I, st, fr, n, this, args, an):
+    """fdopen(fd, mode): the stream of an already open descriptor.  "w" does NOT truncate here: the file is emptied only if
+    it was opened with O_TRUNC.  Listeners see the effective fopen mode ("r+" when nothing truncates)."""
+    fd, mode = args
+    m = mode[1][1] if mode[0] == 'p' and isinstance(mode[1], tuple) and mode[1][0] == 'str' else '?'
+    info = None
+    if fd[0] == 'l' and len(fd[2]) == 1:
+        info = st.comps.pop(('fd', fd[2][0][0]), None)
+        st.sym.pop(fd[2][0][0], None)
+    path = info[0] if info else ('ptop', 'fd-path', False)
+    flags = info[1] if info else TOP
+    O_TRUNC, O_ACCMODE = 0x200, 3
+    eff = m
+    if flags[0] == 'c':
+        trunc = bool(flags[1] & O_TRUNC)
+        acc = flags[1] & O_ACCMODE
+        if m.startswith('w') and not trunc:
+            eff = 'r+' + ('b' if 'b' in m else '') if acc != 0 else m
+        elif m.startswith('r') and trunc:
+            eff = 'w' + m[1:]
+    root = ('fopen', n['_id'], eff)
+    s2 = st.copy()
+    st.note((nloc(n), 'fdopen=NULL'))
+    s2.note((nloc(n), 'fdopen=ok'))
+    set_fpos(s2, root, C(0))
+    I.emit('fopen', s2, node=n, root=root, mode=eff, path=path)
+    return [(st, NULL), (s2, P(('file', root), ()))]
+
+
+def m_close(I, st, fr, n, this, args, an):
+    return [(st, C(0))]
+
+
 def m_fclose(I, st, fr, n, this, args, an):
     root = fileroot(args[0])
     I.emit('fclose', st, node=n, root=root, fval=args[0])
@@ -856,7 +900,7 @@ STD_MODELS = {
     'memcmp': m_cmp, 'strcmp': m_cmp, 'strncmp': m_cmp, 'std::memcmp': m_cmp,
     'memcpy': m_memcpy, 'memmove': m_memcpy, 'memset': m_memset, 'strlen': m_strlen,
     'std::memcpy': m_memcpy, 'std::memset': m_memset, 'std::strlen': m_strlen,
-    'exit': m_exit, 'std::exit': m_exit, 'abort': m_exit,
+    'open': m_open, 'fdopen': m_fdopen, 'close': m_close, 'exit': m_exit, 'std::exit': m_exit, 'abort': m_exit,
     'rand': m_top, 'srand': m_void, 'time': m_top, 'atoi': m_atoi, 'std::atoi': m_atoi,
     'getopt_long': m_getopt, 'stat': m_top,
     'std::array::data': m_arr_begin, 'std::array::begin': m_arr_begin, 'std::array::cbegin': m_arr_begin,
